@@ -16,7 +16,8 @@ for f in sorted(glob.glob(os.path.join(V, "work", "mutres", "C*_*m*.json"))):
     src = ("/tmp/mut2_%s/out/%s" % (pid, mk[2:]) if mk.startswith("r2") else
            "/tmp/mut3_%s/out/%s" % (pid, mk[2:]) if mk.startswith("r3") else
            "/tmp/mut5_%s/out/%s" % (pid, mk[2:]) if mk.startswith("r5") else
-           "/tmp/mut6_%s/out/%s" % (pid, mk[2:]) if mk.startswith("r6") else "/tmp/mut_%s/out/%s" % (pid, mk))
+           "/tmp/mut6_%s/out/%s" % (pid, mk[2:]) if mk.startswith("r6") else
+           "/tmp/mut7_%s/out/%s" % (pid, mk[2:]) if mk.startswith("r7") else "/tmp/mut_%s/out/%s" % (pid, mk))
     confirmed = r.get("demo_clean_rc") == 0 and r.get("demo_mutant_rc") == 1 and r.get("tests_failed") == 0 and r.get("tests_passed", 0) >= 129
     if os.path.exists(os.path.join(V, "seeded", os.path.basename(f)[:-5], "meta.json")) and not os.path.isdir(src):
         continue   # kept in an earlier round, its scratch directory is gone
